@@ -15,7 +15,7 @@ Record pmsg := mkMsgE { pm_corr : N; pm_policy : policy; pm_too_large : bool; pm
                         pm_seal_fails : bool (* the stream encrypts at rest and sealing this value fails *) }.
 Definition mkMsg (c : N) (p : policy) (l : bool) (e : Z) : pmsg := mkMsgE c p l e false.
 
-Inductive ackkind := AOk | ATooLarge | AIncorrectOffset | AEncryption.
+Inductive ackkind := AOk | ATooLarge | AIncorrectOffset | AEncryption | ARefused.
 Record ack := mkAck { ak_corr : N; ak_policy : policy; ak_offset : Z; ak_kind : ackkind }.
 
 Record lstate := mkL {
@@ -95,7 +95,11 @@ Inductive lstep :=
 | LFollower (r : N) (o : Z)        (* a replication request from r: it has everything up to o *)
 | LShrink (r : N)
 | LExpand (r : N)
-| LRegain (keep : Z) (foreign : nat) (hw : Z).
+| LRegain (keep : Z) (foreign : nat) (hw : Z)
+| LApi (ms : list pmsg).
+    (* the same messages arriving through the API (Publish, PublishAsync): on a stream with
+       optimistic concurrency control a message with the NONE policy is refused there -- its
+       publisher could not be told that the expected offset was wrong *)
     (* another replica led for a term and this server leads again: of its log the offsets up to
        `keep` are left, followed by `foreign` messages the other leader wrote; `hw` is the high
        watermark that leader announced.  The follower stint itself is C02's; here its outcome is an
@@ -105,9 +109,8 @@ Inductive lstep :=
 (* a message written by the other leader: no publisher of this history waits for it *)
 Definition foreign_msg : pmsg := mkMsg 0%N PNone false (-1).
 
-Definition step (s : lstate) (x : lstep) : lstate * list ack :=
-  match x with
-  | LPublish ms =>
+Definition publish_step (s : lstate) (ms : list pmsg) : lstate * list ack :=
+
     (* a value that cannot be sealed is refused first, whatever its size; the size limit is on the
        payload as it was received *)
     let enacks := map (fun m => mkAck (pm_corr m) (pm_policy m) 0 AEncryption) (filter pm_seal_fails ms) in
@@ -115,7 +118,16 @@ Definition step (s : lstate) (x : lstep) : lstate * list ack :=
     let nacks := map (fun m => mkAck (pm_corr m) (pm_policy m) 0 ATooLarge) (filter pm_too_large sealed) in
     let good := filter (fun m => negb (pm_too_large m)) sealed in
     let '(s', acks) := if l_cc s then store_each s good else store_batch s good in
-    (s', enacks ++ nacks ++ acks)
+    (s', enacks ++ nacks ++ acks).
+Definition api_refuses (s : lstate) (m : pmsg) : bool := l_cc s && policy_eqb (pm_policy m) PNone.
+
+Definition step (s : lstate) (x : lstep) : lstate * list ack :=
+  match x with
+  | LPublish ms => publish_step s ms
+  | LApi ms =>
+    let refused := map (fun m => mkAck (pm_corr m) (pm_policy m) 0 ARefused) (filter (api_refuses s) ms) in
+    let '(s', out) := publish_step s (filter (fun m => negb (api_refuses s m)) ms) in
+    (s', refused ++ out)
   | LFollower r o =>
     if existsb (N.eqb r) (l_replicas s) && negb (N.eqb r 0)
     then commit (mkL (l_log s) (set_offset r o (l_isr s)) (l_replicas s) (l_min_isr s) (l_queue s) (l_hw s) (l_cc s))
@@ -164,7 +176,7 @@ Fixpoint grun (s : lstate) (g : reports) (xs : list lstep) : lstate * reports :=
 
 (* ---- correspondence ---- *)
 Record lobs := mkLObs { lo_newest : Z; lo_hw : Z; lo_isr : list (N * Z); lo_acks : list (N * Z * nat) (* corr, offset, kind code; sorted by corr *) }.
-Definition kind_code (k : ackkind) : nat := match k with AOk => 0 | ATooLarge => 1 | AIncorrectOffset => 2 | AEncryption => 3 end.
+Definition kind_code (k : ackkind) : nat := match k with AOk => 0 | ATooLarge => 1 | AIncorrectOffset => 2 | AEncryption => 3 | ARefused => 4 end.
 
 Fixpoint insert_by {A} (key : A -> N) (x : A) (l : list A) : list A :=
   match l with
